@@ -62,4 +62,4 @@ class BagOfHypotheses:
         return 0.0  # Transcript not found in the bag of hypotheses
 
     def best_hyp(self):
-        return max(self._hyps, key=lambda hyp: hyp.vis_sc + (hyp.lm_sc if hyp.lm_sc is not None else 0)).transcript
+        return max(self._hyps, key=lambda hyp: hyp.vis_sc + (self.lm_weight * hyp.lm_sc if hyp.lm_sc is not None else 0)).transcript
